@@ -12,7 +12,8 @@ import (
 // WebsocketConnection implements a ReadWriteCloser over a websocket connection
 type WebsocketTunnelConnection struct {
 	*websocket.Conn
-	closed bool
+	closed  bool
+	pending []byte // rest of a websocket message that did not fit into the caller's buffer
 }
 
 func NewWebsocketTunnelConnection(conn *websocket.Conn) *WebsocketTunnelConnection {
@@ -22,6 +23,12 @@ func NewWebsocketTunnelConnection(conn *websocket.Conn) *WebsocketTunnelConnecti
 }
 
 func (wstc *WebsocketTunnelConnection) Read(p []byte) (int, error) {
+	if len(wstc.pending) > 0 {
+		n := copy(p, wstc.pending)
+		wstc.pending = wstc.pending[n:]
+		return n, nil
+	}
+
 	messageType, message, err := wstc.Conn.ReadMessage()
 	if messageType == websocket.CloseMessage || messageType == -1 {
 		return 0, io.EOF
@@ -32,6 +39,12 @@ func (wstc *WebsocketTunnelConnection) Read(p []byte) (int, error) {
 	}
 
 	msgLen := len(message)
+	if len(p) < msgLen && len(p) > 0 {
+		// Hand out what fits and keep the remainder for the following Read calls
+		wstc.pending = message[len(p):]
+		message = message[:len(p)]
+		msgLen = len(p)
+	}
 	if len(p) < msgLen {
 		return 0, errors.Errorf("Buffer to small: message size is %v, but buffer size is %v", msgLen, len(p))
 	}
